@@ -38,7 +38,9 @@ func ScaleFuncs() []ScaleFunc {
 		add("nest", "func nest"+n+"(xs []int) {\n\tfor _, x := range xs {\n\t\tif x > 0 {\n"+rep(k, func(i int) string { return "\t\t\tprintln(x)\n" })+"\t\t}\n\t}\n}")
 		add("appends", "func apps"+n+"(xs []int) []int {\n"+rep(k, func(i int) string { return fmt.Sprintf("\txs = append(xs, %d)\n", i) })+"\treturn xs\n}")
 		add("orChain", "func ors"+n+"(a int) bool {\n\treturn a == -1"+rep(k, func(i int) string { return fmt.Sprintf(" || a == %d", i) })+" || a == 0\n}")
-		add("assertChain", "func asrt"+n+"(v interface{}) int {\n\tif _, ok := v.(string); ok {\n\t\treturn -1\n\t}"+rep(k, func(i int) string { return fmt.Sprintf(" else if _, ok := v.([%d]int); ok {\n\t\treturn %d\n\t}", i, i) })+"\n\treturn 0\n}")
+		add("assertChain", "func asrt"+n+"(v interface{}) int {\n\tif _, ok := v.(string); ok {\n\t\treturn -1\n\t}"+rep(k, func(i int) string {
+			return fmt.Sprintf(" else if _, ok := v.([%d]int); ok {\n\t\treturn %d\n\t}", i, i)
+		})+"\n\treturn 0\n}")
 		add("results", "func res"+n+"() ("+strings.TrimSuffix(rep(k, func(i int) string { return "int, " }), ", ")+") {\n\tpanic(0)\n}")
 		add("params", "func prm"+n+"("+strings.TrimSuffix(rep(k, func(i int) string { return fmt.Sprintf("a%d [16]byte, ", i) }), ", ")+") {}")
 		add("dupArgs", "func dupA"+n+"(s string) bool {\n\treturn "+strings.TrimSuffix(rep(k, func(i int) string { return "(s == s) || " }), " || ")+"\n}")
